@@ -38,15 +38,26 @@ theorem C06_backward_sound (g : Graph) (ctx1 : Nat → NatSet) (lout : List (Nat
     ∀ i, i < tr.length → v ∈ getMap lout tr[i]! [] :=
   Flow.backward_sound groupIndicesLaws g ctx1 lout v tr ht hleaf hsol
 
-/-- either-operand-order leaf statement is FALSE on the current code (known finding F02) -/
+/-- the either-operand-order leaf statement is FALSE on the current code (known finding F02: a constant-first
+    ordered comparison is read as if the field were the first operand; tests/transaction_context/test_group_indices.py
+    pins that reading): `int 2; global GroupSize; <`, i.e. 2 < size, holds for size 16 but the true set is {1} -/
 def C06_leaf_full : Prop :=
   ∀ (c : Cmp) (n v : Nat), v ∈ sizesU → (c.eval n v = true → v ∈ OSet.ofList (assertedIntValues c n sizesU))
 
 theorem C06_leaf_full_false : ¬ C06_leaf_full := by
   intro h
-  -- `int 2; global GroupSize; <` i.e. 2 < size holds for size 16, but the true set is {1}
   have := h .lt 2 16 (by decide) (by decide)
   revert this; decide
+
+/-- what a mirrored reading would give: exact for the constant-first order as well (the repair that the pinned
+    tests rule out) -/
+theorem C06_leaf_exact_if_mirrored (c : Cmp) (n : Nat) (U : NatSet) (v : Nat) (hv : v ∈ U) :
+    (v ∈ OSet.ofList (assertedIntValues c.mirror n U) ↔ c.eval n v = true) ∧
+    (v ∈ OSet.diff U (OSet.ofList (assertedIntValues c.mirror n U)) ↔ c.eval n v = false) := by
+  have h1 := IntSet.asserted_true_iff c.mirror n U v hv
+  have h2 := IntSet.asserted_false_iff c.mirror n U v hv
+  rw [Cmp.mirror_eval] at h1 h2
+  exact ⟨h1, h2⟩
 
 example : (16 : Nat) ∈ sizesU ∧ Cmp.le.eval 16 16 = true := by decide
 
